@@ -349,7 +349,9 @@ func (r *reader) initNodes(tr io.Reader) error {
 	}
 	md := make(map[uint32]*metadataEntry)
 	st := make(map[int64]map[int64]uint32)
-	if err := r.db.Batch(func(tx *bolt.Tx) (err error) {
+	// NOTE: this function consumes the JSON decoder and fills md/st, so it isn't idempotent and must not be
+	// passed to Batch (which re-runs functions when it or another function of the same batch fails).
+	if err := r.db.Update(func(tx *bolt.Tx) (err error) {
 		nodes, err := getNodes(tx, r.fsID)
 		if err != nil {
 			return err
